@@ -198,6 +198,16 @@ pub fn renderings_via_driver(src: &str, repeat: usize, order: u64, history: &[St
                 let _ = std::panic::catch_unwind(std::panic::AssertUnwindSafe(|| request(&mut d, &hp, op)));
             }
         }
+        // crash residue: in some instances an earlier run of the tool "died" and left temporary
+        // files of plausible names behind in the output directories
+        if order != 0 && rng.pct(30) {
+            for d in [Paths::compiled_dir(), Paths::focused_dir(), Paths::shrunk_dir(), Paths::linearized_dir(), Paths::x86_64_assembly_dir(), Paths::aarch64_assembly_dir(), Paths::risc_v_assembly_dir()] {
+                let _ = std::fs::create_dir_all(&d);
+                for n in ["p.tmp", "p.txt.tmp", "p.asm.tmp", ".p.tmp", "p.txt~", "p.asm.part"] {
+                    let _ = std::fs::write(d.join(n), "left behind by a run that did not finish\n");
+                }
+            }
+        }
         let md = std::path::PathBuf::from("m");
         std::fs::create_dir_all(&md).map_err(|e| e.to_string())?;
         let path = md.join("p.sc");
